@@ -426,7 +426,7 @@ func (in *Interp) runPath(prefix []Dec) {
 				if msg == "" {
 					msg = in.panicString(r.v)
 				}
-				if !in.cfg.PanicOK {
+				if !in.cfg.PanicOK && (in.cfg.AssertFilter == nil || in.cfg.AssertFilter("no-panic")) {
 					st := in.assertStat("no-panic")
 					st.Reached++
 					st.Sat++
@@ -448,7 +448,7 @@ func (in *Interp) runPath(prefix []Dec) {
 	}()
 	if status == "ok" || status == "panic" {
 		// implicit "no-panic" assertion discharged on this path
-		if status == "ok" && !in.cfg.PanicOK {
+		if status == "ok" && !in.cfg.PanicOK && (in.cfg.AssertFilter == nil || in.cfg.AssertFilter("no-panic")) {
 			st := in.assertStat("no-panic")
 			st.Reached++
 			st.Trivial++
